@@ -14,6 +14,7 @@ import GPy.C07.RoundTrip
 import GPy.C07.ShiftProofs
 import GPy.C07.BitProofs
 import GPy.C07.PowProofs
+import GPy.C07.GenProofs
 namespace GPy.C07
 
 /-- shared proof script: case-split on the representations of both operands,
@@ -266,6 +267,54 @@ theorem int_text_roundtrip (v : Int) :
     prefixed_int_roundtrip 'o' 8 rfl (by decide) (by decide) (by decide) v 0 (.inr rfl),
     prefixed_int_roundtrip 'b' 2 rfl (by decide) (by decide) (by decide) v 2 (.inl rfl),
     prefixed_int_roundtrip 'b' 2 rfl (by decide) (by decide) (by decide) v 0 (.inr rfl)⟩
+
+/-! ### regenerated tie (extract/goint)
+
+The theorems of this section are about `GPy.C07.Gen.*`: the Lean TRANSLATION of py/int.go as it stands in the
+working tree, rewritten by extract/goint on every run of the check.  They are re-proved against what the code
+says now; a change of py/int.go that alters what a translated function computes leaves one of them unprovable. -/
+
+/-- the translated word kernels `intAdd`/`intSub`/`intMul` of the working tree are exact on all int64 pairs
+and return well-formed (canonical: `*BigInt` only outside int64) objects -/
+theorem generated_word_arith_exact (a b : Int) (ha : inRange a) (hb : inRange b) :
+    denoteObj (Gen.intAdd a b) = some (.int (a + b)) ∧ denoteObj (Gen.intSub a b) = some (.int (a - b)) ∧
+    denoteObj (Gen.intMul a b) = some (.int (a * b)) ∧
+    WF (Gen.intAdd a b) ∧ WF (Gen.intSub a b) ∧ WF (Gen.intMul a b) := by
+  rw [gen_intAdd a b ha hb, gen_intSub a b ha hb, gen_intMul a b ha hb]
+  exact ⟨(intAdd_exact ha hb).1, (intSub_exact ha hb).1, (intMul_exact ha hb).1,
+    (intAdd_exact ha hb).2, (intSub_exact ha hb).2, (intMul_exact ha hb).2⟩
+
+/-- every binary method `Int.M__op__`, `Int.M__rop__`, `Int.M__iop__` of the working tree (16 + 10 + 10 Go
+methods) computes the model's method table, on which all `…_exact` theorems above are stated -/
+theorem generated_int_methods_are_model :
+    (∀ op a o, inRange a → WF o → Gen.meth op a o = intMeth op a o) ∧
+    (∀ op f, Gen.rmeth op = some f → ∀ a o, inRange a → WF o → f a o = intRMeth op a o) ∧
+    (∀ op f, Gen.imeth op = some f → ∀ a o, f a o = Gen.meth op a o) :=
+  ⟨gen_meth_eq, fun op f hf a o ha ho => gen_rmeth_eq op f hf a o ha ho, gen_imeth_eq⟩
+
+/-- the unary methods and `divMod` of the working tree are the model's -/
+theorem generated_unary_divmod_are_model (a b : Int) (ha : inRange a) (hb : inRange b) :
+    Gen.Int_M__neg__ a = unop .neg (.int a) ∧ Gen.Int_M__abs__ a = unop .abs (.int a) ∧
+    Gen.Int_M__invert__ a = unop .invert (.int a) ∧ Gen.Int_M__bool__ a = unop .bool (.int a) ∧
+    Gen.Int_divMod a b = intDivMod a b ∧ Gen.intLshift a b = intLshift a b :=
+  ⟨gen_neg a ha, gen_abs a ha, gen_invert a ha, gen_bool a, gen_divMod a b ha hb, gen_intLshift a b hb⟩
+
+/-- end to end on the regenerated code: `a + b`, `a - b`, `a * b` through the translated forward method of a
+machine-word receiver give the exact integer for every integer operand representation -/
+theorem generated_add_sub_mul_exact (a : Int) (o : Obj) (y : Int) (ha : inRange a) (ho : WF o)
+    (hy : convertToInt o = some y) :
+    denoteRes (Gen.meth .add a o) = some (.ok (.int (a + y))) ∧
+    denoteRes (Gen.meth .sub a o) = some (.ok (.int (a - y))) ∧
+    denoteRes (Gen.meth .mul a o) = some (.ok (.int (a * y))) := by
+  have hb := convertToInt_inRange ho hy
+  simp only [gen_meth_eq _ a o ha ho, intMeth, hy, denoteRes]
+  simp [intAdd_denote ha hb, intSub_denote ha hb, intMul_denote ha hb]
+
+/-- how much of py/int.go the translator covered in this run (49 functions; a function the translator no longer
+finds or understands makes extract/goint fail, which the check reports as a lost tie) -/
+theorem generated_translation_covers : Gen.translated.length = 49 := by decide
+
+example : Gen.intSub IntMax (-1) = .big 9223372036854775808 ∧ Gen.intMul IntMin 2 = .big (-18446744073709551616) := by decide
 
 /-! ### witnesses for the excluded region (known finding C07-K01) -/
 
